@@ -315,6 +315,7 @@ def _termination(kinds, catch, maxtasks, sigat, signum, second_at, want):
     def on_exit(pid, code):
         exits.append((pid, code))
         deaths_started[0] = deaths_started[0] or not ctl.fired     # the exit path had begun before the signal
+        ctl.point('on_exit')       # user code: a termination signal may arrive while the exit callback runs
     wk, inq, outq, synq = H.make_worker(tasks, ctl, maxtasks=maxtasks or None, counter=H.Counter(99), on_exit=on_exit)
     saved_exit = sys.exit
     final = None
@@ -322,6 +323,10 @@ def _termination(kinds, catch, maxtasks, sigat, signum, second_at, want):
         try:
             wk()
         except H.Exited as e:
+            final = e.code
+        except SystemExit as e:
+            # raised by the signal handler outside every handler of the worker (in the exit callback): it leaves Worker.__call__
+            # and BaseProcess._bootstrap turns it into the exit status (C19)
             final = e.code
     finally:
         sys.exit = saved_exit
@@ -336,8 +341,10 @@ def _termination(kinds, catch, maxtasks, sigat, signum, second_at, want):
         return fail('C08:exit-callback-count')
     if len(deaths) > 1 or (deaths and deaths[0][1] != (4242, exits[0][1])):
         return fail('C08:death-notice')
-    if exits[0][1] != final and not (ctl.fired and ctl.where == 'put' and deaths == []):
-        return fail('C08:exit-status-differs-from-callback')
+    if exits[0][1] != final and not (ctl.fired and ctl.where in ('put', 'on_exit') and deaths == []):
+        # once the DEATH notice has told the parent the status (the parent answers it with TERM), a signal must not change it:
+        # "exits with the recycle status" (C09), "clean or recycle exits never consume budget" (C11)
+        return fail('C08:exit-status-differs-from-callback' + (':after-the-DEATH-notice' if deaths else ''))
     if ctl.fired:
         if ctl.swallowed:
             raise Prune()      # task code that catches and discards SystemExit is outside the claim
